@@ -1,4 +1,4 @@
-from .common import LEAN_TB, WSFRAME_TB
+from .common import RUN_WSHANDSHAKE_SMALL, RUN_WSWRITE_SMALL, LEAN_TB, WSFRAME_TB
 
 PROP = {
         "id": "C07",
@@ -37,8 +37,11 @@ PROP = {
             "component": "wsmsg",
             "quick": {"gen": [(2500, 5)]},
             "thorough": {"gen": [(20000, 6)]},
-        }],
-        "keys": ["wsdecode.*", "wsmsg.*"],
+        },
+            # ... across a reconnect (what the previous session left in the read buffer) and for what the client's own encoder
+            # produces on the wire (components of C18 and C16)
+            RUN_WSHANDSHAKE_SMALL, RUN_WSWRITE_SMALL],
+        "keys": ["wsdecode.*", "wsmsg.*", "wshandshake.bytes-after-blank-line", "wswrite.malformed", "wswrite.incomplete", "wswrite.trailing"],
         # a consumer that keeps decoded frames in the source buffer's save area (the model has no save area)
         "direct": [{"component": "wsdecode", "timeout": 600}],
         "rule": "scripts = NewFrameCodec over a fresh ByteBuffer (max from {0,1,125,126,127,200,300,600,1000,65535,65536,70000,2^19,-1,-5,2^31}, "
